@@ -106,7 +106,10 @@ func (p *policyRulesMergeContext) merge(policy *PolicyRules) {
 		existing, found := p.identityRules[id.Name]
 
 		if !found {
-			p.identityRules[id.Name] = id
+			// Store a copy: the merged rule is updated in place below, and the
+			// input policy may be shared with other callers (parsed policy cache).
+			merged := *id
+			p.identityRules[id.Name] = &merged
 			continue
 		}
 
@@ -124,7 +127,8 @@ func (p *policyRulesMergeContext) merge(policy *PolicyRules) {
 		existing, found := p.identityPrefixRules[id.Name]
 
 		if !found {
-			p.identityPrefixRules[id.Name] = id
+			merged := *id
+			p.identityPrefixRules[id.Name] = &merged
 			continue
 		}
 
@@ -224,7 +228,8 @@ func (p *policyRulesMergeContext) merge(policy *PolicyRules) {
 		existing, found := p.serviceRules[sp.Name]
 
 		if !found {
-			p.serviceRules[sp.Name] = sp
+			merged := *sp
+			p.serviceRules[sp.Name] = &merged
 			continue
 		}
 
@@ -242,7 +247,8 @@ func (p *policyRulesMergeContext) merge(policy *PolicyRules) {
 		existing, found := p.servicePrefixRules[sp.Name]
 
 		if !found {
-			p.servicePrefixRules[sp.Name] = sp
+			merged := *sp
+			p.servicePrefixRules[sp.Name] = &merged
 			continue
 		}
 
